@@ -419,6 +419,13 @@ func zeroVal(fc *FnCtx, st *State, s Sort, gt types.Type) Val {
 	case SRec:
 		v := fc.freshVal(st, "zero", SRec, gt)
 		st.fresh[v.Rec] = true
+		// the zero value of a pointer or interface is nil (of a struct it is not)
+		if gt != nil {
+			switch gt.Underlying().(type) {
+			case *types.Pointer, *types.Interface:
+				st.env[v.Rec+".$nil"] = boolVal("true")
+			}
+		}
 		return v
 	case SBuf:
 		v := fc.freshVal(st, "zero", SBuf, gt)
